@@ -304,6 +304,8 @@ type workItem struct {
 
 // exploreAll explores all paths of all instances with a shared work queue.
 func (env *Env) exploreAll(insts []*InstanceResult, hs map[string]*Harness, jobs int, solverKind string, maxPathsPerInst int, deadline time.Time) {
+	crossN := 0
+	defer func() { env.crossQueries = crossN }()
 	var mu sync.Mutex
 	cond := sync.NewCond(&mu)
 	var queue []workItem
@@ -324,7 +326,15 @@ func (env *Env) exploreAll(insts []*InstanceResult, hs map[string]*Harness, jobs
 		go func() {
 			defer wg.Done()
 			s := newSolver(solverKind)
-			defer s.close()
+			if env.crossKind != "" {
+				s.mirror = newSolver(env.crossKind)
+			}
+			defer func() {
+				mu.Lock()
+				crossN += s.nCross
+				mu.Unlock()
+				s.close()
+			}()
 			for {
 				mu.Lock()
 				for len(queue) == 0 && active > 0 && !stop {
